@@ -1,7 +1,89 @@
+import AuModel.Point
 import Driver.Util
-open Au
+open Au Au.Mixed Au.Point
 
-def dispatchC09 : List String → Option String
+namespace C09Cmd
+
+def parseUnit? : List String → Option PtUnit
+  | [sn, sd, oc, on, od] =>
+    match parseNat? sn, parseNat? sd, parseInt? oc, parseNat? on, parseNat? od with
+    | some a, some b, some c, some d, some e =>
+      if a = 0 || b = 0 || d = 0 || e = 0 || !(decide (originRep.inRange c)) then none else some ⟨⟨a, b⟩, c, ⟨d, e⟩⟩
+    | _, _, _, _, _ => none
   | _ => none
 
-/-! Driver commands for C09. -/
+def evalS {α : Type} (f : α → String) : Eval α → String
+  | .ok v => f v
+  | .ub _ => "ub"
+
+def opOfName? : String → Option CmpOp
+  | "eq" => some .eq | "ne" => some .ne | "lt" => some .lt
+  | "le" => some .le | "gt" => some .gt | "ge" => some .ge
+  | _ => none
+
+/-- `c09in r n <u: sn sd oc on od> <u'> v` → explicit-rep conversion. -/
+def cmdIn (args : List String) : String :=
+  match args with
+  | [rs, ns, a1, a2, a3, a4, a5, b1, b2, b3, b4, b5, vs] =>
+    match IntTy.ofName? rs, IntTy.ofName? ns, parseUnit? [a1, a2, a3, a4, a5], parseUnit? [b1, b2, b3, b4, b5], parseInt? vs with
+    | some r, some n, some u, some u', some v =>
+      if !(decide (r.inRange v)) then "bad-op" else
+      let x := inExplicit r n u u' v
+      s!"compiles={b01 (explicitCompiles r n u u')} calc={(intermediateRep r n).name} val={evalStr x.val} wrapped={b01 x.wrapped} narrowed={b01 x.narrowed}"
+    | _, _, _, _, _ => "bad-op"
+  | _ => "bad-op"
+
+/-- `c09imp r <u> <u'> v` → implicit-rep conversion. -/
+def cmdImp (args : List String) : String :=
+  match args with
+  | [rs, a1, a2, a3, a4, a5, b1, b2, b3, b4, b5, vs] =>
+    match IntTy.ofName? rs, parseUnit? [a1, a2, a3, a4, a5], parseUnit? [b1, b2, b3, b4, b5], parseInt? vs with
+    | some r, some u, some u', some v =>
+      if !(decide (r.inRange v)) then "bad-op" else
+      let x := inImplicit r u u' v
+      s!"compiles={b01 (implicitCompiles r u u')} val={evalStr x.val} wrapped={b01 x.wrapped} narrowed={b01 x.narrowed}"
+    | _, _, _, _ => "bad-op"
+  | _ => "bad-op"
+
+/-- `c09cpu <u1> <u2>` → the common point unit: ratios of the two scales to it, and which origin it has. -/
+def cmdCpu (args : List String) : String :=
+  match args with
+  | [a1, a2, a3, a4, a5, b1, b2, b3, b4, b5] =>
+    match parseUnit? [a1, a2, a3, a4, a5], parseUnit? [b1, b2, b3, b4, b5] with
+    | some u1, some u2 =>
+      let cu := commonPointUnit u1 u2
+      let (n1, d1) := ratio u1.scale cu.scale
+      let (n2, d2) := ratio u2.scale cu.scale
+      s!"k1={n1}/{d1} k2={n2}/{d2} scale={cu.scale.reduced.num}/{cu.scale.reduced.den} first={b01 (commonOriginIsFirst u1 u2)} compiles_hint={b01 (pointOpsCompile IntTy.i64 IntTy.i64 u1 u2)}"
+    | _, _ => "bad-op"
+  | _ => "bad-op"
+
+/-- `c09op <op> r1 r2 <u1> <u2> v1 v2`, op ∈ eq ne lt le gt ge sub. -/
+def cmdOp (args : List String) : String :=
+  match args with
+  | [op, r1s, r2s, a1, a2, a3, a4, a5, b1, b2, b3, b4, b5, v1s, v2s] =>
+    match IntTy.ofName? r1s, IntTy.ofName? r2s, parseUnit? [a1, a2, a3, a4, a5], parseUnit? [b1, b2, b3, b4, b5], parseInt? v1s, parseInt? v2s with
+    | some r1, some r2, some u1, some u2, some v1, some v2 =>
+      if !(decide (r1.inRange v1) && decide (r2.inRange v2)) then "bad-op" else
+      let comp := b01 (pointOpsCompile r1 r2 u1 u2)
+      if op == "sub" then
+        let x := subPoints r1 r2 u1 u2 v1 v2
+        s!"compiles={comp} rep={(IntTy.common r1 r2).promote.name} val={evalStr x.val} wrapped={b01 x.wrapped} narrowed={b01 x.narrowed}"
+      else match opOfName? op with
+        | some o =>
+          let x := cmpPoints o r1 r2 u1 u2 v1 v2
+          s!"compiles={comp} rep=bool val={evalS b01 x.val} wrapped={b01 x.wrapped} narrowed={b01 x.narrowed}"
+        | none => "bad-op"
+    | _, _, _, _, _, _ => "bad-op"
+  | _ => "bad-op"
+
+end C09Cmd
+
+def dispatchC09 : List String → Option String
+  | "c09in" :: args => some (C09Cmd.cmdIn args)
+  | "c09imp" :: args => some (C09Cmd.cmdImp args)
+  | "c09cpu" :: args => some (C09Cmd.cmdCpu args)
+  | "c09op" :: args => some (C09Cmd.cmdOp args)
+  | _ => none
+
+/-! Driver commands for C09 (AuModel.Point). -/
